@@ -370,13 +370,15 @@ def run(ctx: Ctx):
             "epoch-0 row, reserved by add_entry, formatted, and every literal row key read are one set; (S2) no "
             "controller state outside cache_hist is written after construction; (S2') no controller-computed float "
             "column is cached raw while persisted lossily [known finding F10: lr]; (S3) reference epochs use the "
-            "previous row's countdown; (S4) both reference epochs normalise to epoch - patience + countdown - 1 and "
-            "the two control blocks are alpha-equivalent; (S5) update_for_epoch and continue_training apply the same "
-            "stop rule; (S6) a new learning rate is written to the row and to every optimizer param group together, "
-            "and on no other path. NOT decided: that the countdown arithmetic realises the stated rule for every "
-            "metric history; float formatting round trips."),
+            "previous row's countdown; (S4) both reference epochs normalise to epoch - patience + countdown - 1, one epoch's "
+            "update of the countdowns / learning rate / continue flag equals the documented transition on a grid of "
+            "countdowns x predicates x rate x threshold x budget (interpreted, not executed), each no-improvement "
+            "predicate is max(reference - new, 0) < threshold on a grid; (S5) continue_training applies the same "
+            "stop rule to a stored row; (S6) a new learning rate is written to the row and to every optimizer param group together, "
+            "and on no other path. NOT decided: that the one-step transition composes to the stated rule "
+            "over every metric history (induction over epochs); float formatting round trips."),
         decided=["S1", "S2", "S2'", "S3", "S4", "S5", "S6"],
-        not_decided=["countdown arithmetic against the rule over all histories", "float formatting round-trips"],
+        not_decided=["composition of the one-step transition over all histories", "float formatting round-trips"],
         assumptions=["csv.DictReader/writer semantics", "metrics lie on the printed grid (property quantifier)"],
     )
 
@@ -450,13 +452,15 @@ MANIFEST = dict(
         "column tables (written / parsed with the right type from the same-named column / seeded / reserved / "
         "formatted / read), absence of controller state outside the cached history, cache-vs-persist coherence "
         "of controller-computed float columns, reference-epoch expressions in linear normal form reading the "
-        "previous row, alpha-equivalence of the early-stopping and reduce-lr blocks, equality of the stop rule "
-        "in update_for_epoch and continue_training, and learning-rate write-through. These are necessary "
-        "conditions for 'decisions survive restarts'; the countdown arithmetic against the stated rule over all "
-        "metric histories is not decided."),
+        "previous row, and - by an evaluator over the syntax tree of update_for_epoch / continue_training with its own "
+        "value domain - one epoch's transition of the countdown columns, learning rate, optimizer write and continue "
+        "flag against the documented rule on a finite grid (predicates as inputs, each predicate tabulated against "
+        "max(reference - new, 0) < threshold), with continue_training held to the same stop rule. These are necessary "
+        "conditions for 'decisions follow the rules and survive restarts'; that the one-step transition composes to "
+        "the stated behaviour over all metric histories, and float formatting round trips, are not decided."),
     level_note="Trusted: python ast, csv module semantics. Known finding F10 (lr cached raw, persisted with "
                "'{:.4e}') is listed in known_findings.json.",
-    technique="static analysis: literal-table extraction and set comparison, reaching definitions, linear normal forms, sibling alpha-equivalence",
+    technique="static analysis: literal-table extraction and set comparison, reaching definitions, linear normal forms, abstract interpretation of the per-epoch update over a finite grid",
     design_ref="DESIGN.md section 4 C15",
 )
 
@@ -488,8 +492,15 @@ def _mutants():
           "max(rlr_info['val_met'] - val_met, 0) < self.params.early_stopping_threshold", "G12/S4"),
         M("es-pred-sign", T, "max(es_info['val_met'] - val_met, 0) < self.params.early_stopping_threshold",
           "max(val_met - es_info['val_met'], 0) < self.params.early_stopping_threshold", "es-predicate"),
-        M("es-reset-wrong", T, "info['es_patience_cd'] = self.params.early_stopping_patience\nif self.params",
-          "info['es_patience_cd'] = self.params.early_stopping_burnin\nif self.params", "countdown-transition-table"),
+        M("es-reset-wrong", T, "info['es_patience_cd'] = self.params.early_stopping_patience",
+          "info['es_patience_cd'] = self.params.early_stopping_burnin", "countdown-transition-table"),
+        M("resume-branch-decrements-patience", T, "if info['es_resume_cd']:\n    info['es_resume_cd'] -= 1", "if info['es_resume_cd']:\n    info['es_patience_cd'] -= 1", "countdown-transition-table"),
+        M("reduce-one-epoch-early", T, "if not info['rlr_patience_cd']:", "if info['rlr_patience_cd'] <= 1:", "countdown-transition-table"),
+        M("cooldown-not-restarted", T, "info['rlr_resume_cd'] = self.params.reduce_lr_cooldown\n", "", "countdown-transition-table"),
+        M("negligible-change-applied", T, "if old_lr - new_lr > rlr_epsilon:", "if old_lr - new_lr >= rlr_epsilon:", "countdown-transition-table"),
+        M("threshold-zero-still-stops", T, "if self.params.early_stopping_threshold and (not info['es_patience_cd']):", "if self.params.early_stopping_threshold is not None and (not info['es_patience_cd']):", "countdown-transition-table", 1),
+        M("budget-off-by-one", T, "cont = epoch < self.params.num_epochs", "cont = epoch <= self.params.num_epochs", "countdown-transition-table", 1),
+        M("es-floor-dropped", T, "info['es_patience_cd'] = 0\n", "pass\n", "countdown-transition-table"),
         M("continue-training-differs", T, "if self.params.early_stopping_threshold and (not info['es_patience_cd']):\n    cont = False\nreturn cont",
           "if self.params.early_stopping_threshold and (not info['es_resume_cd']):\n    cont = False\nreturn cont", "stop-rule"),
         M("lr-not-written-to-optimizer", T, "for param_group in optimizer.param_groups:\n    param_group['lr'] = new_lr", "pass",
